@@ -7,7 +7,9 @@ LEVEL = "proof"
 COQ_TARGETS = ["Props/Properties_C15.vo", "Layout/GenCheck.vo", "Layout/Examples.vo", "Extract/ExtractLayout.vo"]
 PROPS_FILES = ["Props/Properties_C15.v"]
 RUNS = [dict(name="layout", harness="c15", driver="layout", model_ml="layout_model")]
-EXTRA_OBLIGATIONS = ["Layout/GenCheck.v:generated_fields_match (vm_compute over Gen/GenAccessors.v)",
+EXTRA_OBLIGATIONS = ["Layout/GenCheck.v:generated_defrefs_match (pointer slot + default bytes of getters and X_Future accessors)",
+                     "Layout/GenCheck.v:generated_typerefs_match (qualified generated type names vs schema type ids)",
+                     "Layout/GenCheck.v:generated_fields_match (vm_compute over Gen/GenAccessors.v)",
                      "Layout/GenCheck.v:generated_fields_wf", "Layout/GenCheck.v:generated_nodes_match"]
 
 WORK = os.path.join(vcheck.BUILD, "c15")
@@ -75,7 +77,7 @@ def generate(res):
         if not e["translated"]:
             report("translate/%s" % src, "%s: emitted accessor not understood by genir (fail closed): %s" % (name, e.get("trans_err", "")), name)
         if e["compiles"] == "NO":
-            report("compile/%s/%s" % (src, tag if src == "probe" else "schema"),
+            report("compile/%s/%s" % (src, tag if src in ("probe", "multifile", "boundary") else "schema"),
                    "%s: the emitted package does not compile: %s" % (name, e.get("compile_err", "")), name)
     return notes
 
@@ -102,7 +104,11 @@ def post(res, stats, mismatches):
          "Definition badf := filter (fun p => negb (ir_eqb (snd p) (gen_accessor (fst p)))) fields.\n"
          "Definition badn := filter (fun p => negb (nir_eqb (snd p) (gen_node (fst p)))) nodes.\n"
          "Definition badw := filter (fun p => negb (CV.Layout.LayoutMain.field_wfb (fst p))) fields.\n"
-         "Eval vm_compute in (length badf, length badn, length badw).\n"
+         "Definition badt := filter (fun p => negb (typerefs_match [p])) typerefs.\n"
+         "Eval vm_compute in (length badf, length badn, length badw, length badt).\n"
+         "Eval vm_compute in firstn 6 badt.\n"
+         "Definition badd := filter (fun p => negb (defrefs_match [p])) defrefs.\n"
+         "Eval vm_compute in (length badd, firstn 4 badd).\n"
          "Eval vm_compute in firstn 3 badf.\n"
          "Eval vm_compute in map (fun p => gen_accessor (fst p)) (firstn 3 badf).\n"
          "Eval vm_compute in firstn 3 badn.\n"
